@@ -136,6 +136,19 @@ CHECKS = {
             'accepted attempt, the ContinuousConstraint holds at every trial, derived and window factors see the same '
             'trial / the preceding outputs with NaN exactly where undefined, cumulative distributions restart per attempt.',
             'Integers stand for sampled reals (no float arithmetic in the library); at most 2 resampling attempts.', '6 C22'),
+    'C17': (OT, 'A', 'solver-GENERATED testing of the real mismatch checker: z3 models of the reference (valid), z3 models '
+                     'violating exactly one requirement group, and all single-cell perturbations judged by the reference validator',
+            'For every corpus design the real sample_mismatch_experiment is run on z3-generated valid sequences (must report '
+            'nothing), on z3-generated sequences that violate exactly one requirement (must report something) and on every '
+            'single-cell change of two valid sequences (verdict must equal validity).',
+            'A per-sequence verdict on generated inputs, not a for-all claim; the reference is the oracle.', '6 C17'),
+    'C23': (TV, 'A', 'SMT validation of weighted designs against the reference; copy-expanded twin compared through the real '
+                     'formulas (functional-link inclusion by SMT, bounded SAT enumeration + assumption solving, model counts)',
+            'Weighted designs are proved sound and complete against rule 7; each weighted design and its twin with '
+            'separately named copies are compared: name-level projection equality for crossed weights, copy-level '
+            'inclusion both ways for uncrossed weights, equal numbers of distinct solutions when the factor is in some but '
+            'not all crossings.',
+            'Weights 2 and 3; twin comparison excludes constraints/derivations that name the weighted level.', '6 C23'),
     'C24': (TV, 'A', 'projection inclusion between two real compiled formulas, both directions, decided by SMT after the '
                      'definability closure; no reference semantics',
             'For each design and documented law (MultiCrossBlock = Merge of CrossBlocks for every mode x alignment the '
